@@ -522,7 +522,24 @@ class Replay:
                     self.report("confluence.snapshot",
                                 "two call sequences reach the same documented state but different objects: %s; other path %s"
                                 % (changed, json.dumps(self.path(tkey))), skey, label)
+        self.flush_fresh()
         return self
+
+    def flush_fresh(self):
+        """C19: the queued pickles are restored by another interpreter, which repeats the recorded continuation."""
+        queue, self.fresh_queue = getattr(self, "fresh_queue", []), []
+        if not queue:
+            return
+        from harness import fresh
+        results = fresh.other_interpreter([item for item, _, _, _ in queue])
+        for (item, want, tkey, label), got in zip(queue, results):
+            self.stats["fresh_interpreter"] = self.stats.get("fresh_interpreter", 0) + 1
+            if isinstance(got, str):
+                self.report("clone.restore", "a pickle (protocol %d) of the bandit cannot be restored in another interpreter: %s"
+                            % (item["protocol"], got), tkey, label)
+            elif not same(got, want):
+                self.report("clone.other_interpreter", "a pickle (protocol %d) restored in another interpreter answers the "
+                            "continuation with %s, the original with %s" % (item["protocol"], _fmt(got), _fmt(want)), tkey, label)
 
     def run_paths(self, edges):
         """Simulation behaviours executed as PATHS: one real object per behaviour, never copied between its calls, with
@@ -808,6 +825,18 @@ class Replay:
         except Exception as error:  # noqa
             self.report("clone.exception", "copying after a query raised %s: %s" % (type(error).__name__, error), tkey, label)
             return
+        queue = self.__dict__.setdefault("fresh_queue", [])
+        if self.stats["clones"] % 5 == 1 and len(queue) < 10:
+            # a pickle restored by ANOTHER interpreter must continue like the original (harness/fresh.py)
+            try:
+                from harness import fresh
+                data = pickle.dumps(obj, protocol=protocol)
+                log = fresh.CallLog(copy.deepcopy(obj))
+                want = self.probe_inplace(log)
+                queue.append(({"pickle": data, "protocol": protocol, "calls": object.__getattribute__(log, "_calls"),
+                               "thr": dict(binarizers.THR), "unit": binarizers.UNIT}, want, tkey, label))
+            except Exception as error:  # noqa
+                self.report("clone.exception", "pickling raised %s: %s" % (type(error).__name__, error), tkey, label)
         for item in clones:
             how, clone = item[0], item[1]
             if len(item) > 2:
